@@ -493,7 +493,7 @@ func checkC04(c *Ctx) {
 
 func checkC16(c *Ctx) {
 	r, u := c.R, c.U
-	r.Explanation = "Necessary structural conditions of C16 only (thin claim): every Read/Seek failure on the introspection paths (ReadMetaData, PageHeaders, PageHeadersAtOffset) is reported (EP restricted to those functions); the page walk reads one header per iteration, appends exactly that header once, skips exactly its compressed_page_size bytes and advances its value count by that header's num_values; PageHeaders visits every column chunk of every row group in order and passes that chunk's own data_page_offset and num_values. Equality with an independent walk of arbitrary files is value-level and NOT decided."
+	r.Explanation = "Necessary structural conditions of C16 only (thin claim): every Read/Seek failure on the introspection paths (ReadMetaData, PageHeaders, PageHeadersAtOffset) is reported (EP restricted to those functions); the page walk reads one header per iteration, appends exactly that header once, skips exactly its compressed_page_size bytes and advances its value count by that header's num_values; PageHeaders visits every column chunk of every row group in order and passes that chunk's own data_page_offset and num_values. every read on those paths is fill-or-fail (SR restricted to them); a valid footer is not refused and is located at tail position − length. Equality with an independent walk of arbitrary files is value-level and NOT decided."
 	roots, _, ops := srcAnalysis(c)
 	reach := u.reach(roots.intro)
 	runEP(u, r, "EP/introspection", ops, fnSet(reach))
@@ -501,6 +501,11 @@ func checkC16(c *Ctx) {
 	laWalk(c, "LA-walk")
 	footerRejects(c, footerPathFns(c))
 	laFooterMeta(c, "LA-footer", map[string]bool{"seek": true})
+	// what the calls report must not depend on how the source fragments its reads either (a footer longer than one read)
+	{
+		_, t, _ := srcAnalysis(c)
+		runSR(c.U, r, t, func(f *ssa.Function) bool { return reach[f] && !c.U.isCtl(f) })
+	}
 	r.assume("equality of the listing with an independent walk of arbitrary files is value-level and NOT decided")
 }
 
@@ -516,11 +521,29 @@ func laWalk(c *Ctx, rule string) {
 	}
 	key := u.FnName(at)
 	pos := u.Pos(at.Pos())
+	// the header of an iteration: read by PageHeader in the walk itself, or by a helper of the walk that returns it
+	returnsHeader := func(f *ssa.Function) bool {
+		res := f.Signature.Results()
+		return res.Len() >= 1 && strings.HasSuffix(res.At(0).Type().String(), "schema.PageHeader")
+	}
+	reachesHdr := func(f *ssa.Function) bool {
+		if f == hdrFn {
+			return true
+		}
+		for g := range u.reach([]*ssa.Function{f}) {
+			if g == hdrFn {
+				return true
+			}
+		}
+		return false
+	}
 	var hcalls []*ssa.Call
 	for _, b := range at.Blocks {
 		for _, ins := range b.Instrs {
-			if call, ok := ins.(*ssa.Call); ok && call.Call.StaticCallee() == hdrFn {
-				hcalls = append(hcalls, call)
+			if call, ok := ins.(*ssa.Call); ok {
+				if sc := call.Call.StaticCallee(); sc != nil && returnsHeader(sc) && reachesHdr(sc) {
+					hcalls = append(hcalls, call)
+				}
 			}
 		}
 	}
@@ -558,27 +581,48 @@ func laWalk(c *Ctx, rule string) {
 	} else {
 		r.bad(rule, key+" append-once", pos, fmt.Sprintf("the header just read is appended %d times per iteration", appends))
 	}
-	// skip by compressed size, relative to the current position
-	phs := symExpr(ph, 0)
+	// skip by compressed size, relative to the current position — in the walk, or in the helper that read the header
 	skipOK, skipWhy := false, "no Seek over the page body found in the iteration"
-	for _, b := range at.Blocks {
-		for _, ins := range b.Instrs {
-			call, ok := ins.(*ssa.Call)
-			if !ok || !call.Call.IsInvoke() || call.Call.Method.Name() != "Seek" || !inIter(call) {
-				continue
-			}
-			off := symExpr(call.Call.Args[0], 0)
-			wh := call.Call.Args[1]
-			switch {
-			case !strings.Contains(off, "load("+phs+".CompressedPageSize)"):
-				skipWhy = "the walk skips " + off + " bytes, not the header's compressed_page_size"
-			case !constIs(wh, 1):
-				skipWhy = "the skip is not relative to the current position (io.SeekCurrent)"
-			default:
-				skipOK = true
+	type seekCtx struct {
+		fn    *ssa.Function
+		hdr   string
+		after ssa.Instruction
+	}
+	ctxs := []seekCtx{{at, symExpr(ph, 0), hc}}
+	if sc := hc.Call.StaticCallee(); sc != hdrFn {
+		for _, g := range unitFns(u, sc) {
+			for _, b := range g.Blocks {
+				for _, ins := range b.Instrs {
+					if call, ok := ins.(*ssa.Call); ok && call.Call.StaticCallee() == hdrFn {
+						if ex := extractOf(call, 0); ex != nil {
+							ctxs = append(ctxs, seekCtx{g, symExpr(ex, 0), call})
+						}
+					}
+				}
 			}
 		}
 	}
+	for _, cx := range ctxs {
+		for _, b := range cx.fn.Blocks {
+			for _, ins := range b.Instrs {
+				call, ok := ins.(*ssa.Call)
+				if !ok || !call.Call.IsInvoke() || call.Call.Method.Name() != "Seek" || !dominatesInstr(cx.after, call) {
+					continue
+				}
+				off := symExpr(call.Call.Args[0], 0)
+				wh := call.Call.Args[1]
+				switch {
+				case !strings.Contains(off, "load("+cx.hdr+".CompressedPageSize)"):
+					skipWhy = "the walk skips " + off + " bytes, not the header's compressed_page_size"
+				case !constIs(wh, 1):
+					skipWhy = "the skip is not relative to the current position (io.SeekCurrent)"
+				default:
+					skipOK = true
+				}
+			}
+		}
+	}
+	phs := symExpr(ph, 0)
 	if skipOK {
 		r.ok(rule, key+" skip-compressed-size", pos, "Seek(int64(ph.CompressedPageSize), io.SeekCurrent)")
 	} else {
@@ -606,7 +650,13 @@ func laWalk(c *Ctx, rule string) {
 	key = u.FnName(all)
 	pos = u.Pos(all.Pos())
 	calls := 0
-	for _, b := range all.Blocks {
+	var allBlocks []*ssa.BasicBlock
+	for _, g := range unitFns(u, all) {
+		if g != at && !reachesHdr(g) || g == all || (g != at && len(callsTo(g, at.String())) > 0) {
+			allBlocks = append(allBlocks, g.Blocks...)
+		}
+	}
+	for _, b := range allBlocks {
 		for _, ins := range b.Instrs {
 			call, ok := ins.(*ssa.Call)
 			if !ok || call.Call.StaticCallee() != at {
